@@ -10,6 +10,7 @@ use vcore::driver::{self, CheckDef, Ctx, PartResult, PartSpec};
 use vcore::json;
 use vcore::promtext;
 use vcore::vseq;
+use vcore::vsched::{self, body, fail, Cfg, Scenario, Verdict};
 
 static META: Metadata<'static> = Metadata::new("t", Level::INFO, None);
 const T: u64 = 1000; // idle timeout in clock ticks (ns)
@@ -241,7 +242,7 @@ fn direct(ctx: &Ctx, res: &mut PartResult, depth: usize, mask_i: usize, timeout:
         res.executions = n;
         res.exhaustive = complete;
         if !complete {
-            res.cap_hit = Some("wall budget".into());
+            res.cap_hit = Some("budget (cpu time of the part)".into());
         }
     }
     res.transitions = transitions;
@@ -354,7 +355,7 @@ fn prom(ctx: &Ctx, res: &mut PartResult, depth: usize, mask_i: usize) {
         res.executions = n;
         res.exhaustive = complete;
         if !complete {
-            res.cap_hit = Some("wall budget".into());
+            res.cap_hit = Some("budget (cpu time of the part)".into());
         }
     }
     res.transitions = transitions;
@@ -365,6 +366,90 @@ fn prom(ctx: &Ctx, res: &mut PartResult, depth: usize, mask_i: usize) {
         res.violation(&sig, msg, json!({"seq": seq}));
     }
     res.sample(json!({"mask": mask_name, "ops": "Inc, Render, Advance(1001), Render, Inc, Render"}));
+}
+
+// ------------------------------------------------------------------ E1: an update racing an observation
+struct ES {
+    rec: metrics_exporter_prometheus::PrometheusRecorder,
+    h: metrics_exporter_prometheus::PrometheusHandle,
+    mock: std::sync::Arc<quanta::Mock>,
+    seen: std::sync::Mutex<Vec<Option<(u64, f64)>>>,
+}
+/// (count-like value, sum-like value) of the one family under test in a rendering; None = the family is absent
+fn seen_in(text: &str, kind: K) -> Option<(u64, f64)> {
+    let fams = promtext::parse(text).ok()?;
+    let f = fams.first()?;
+    match kind {
+        K::C => Some((f.samples[0].value.parse().ok()?, 0.0)),
+        K::G => Some((0, f.samples[0].value_f64())),
+        K::H => Some((f.samples.iter().find(|s| s.name.ends_with("_count"))?.value.parse().ok()?, f.samples.iter().find(|s| s.name.ends_with("_sum"))?.value_f64())),
+    }
+}
+/// One metric, updated once and observed (render #1) at t=0. Then an updater thread applies one more update while an
+/// observer thread advances the clock by T/2 and renders (#2). Afterwards the clock advances by T+1 and a final render
+/// (#3) is made. Whatever the interleaving: render #2 shows the metric (it was not idle) with its value before or after
+/// the racing update; and the racing update is never lost — if render #3 no longer shows the metric (dropped as idle
+/// since render #2), render #2 must already have reported the updated value; if it still shows it, with the updated value.
+fn e1_update_vs_observe(ctx: &Ctx, res: &mut PartResult, pb: usize, kind: K) {
+    let (before, after): ((u64, f64), (u64, f64)) = match kind {
+        K::C => ((1, 0.0), (6, 0.0)),
+        K::G => ((0, 1.5), (0, 4.0)),
+        K::H => ((1, 1.0), (2, 5.0)),
+    };
+    let scn = Scenario {
+        name: format!("{:?}: updater (one update) || observer (advance T/2, render); then advance T+1, render", kind),
+        setup: Box::new(move || {
+            let (clock, mock) = Clock::mock();
+            let rec = PrometheusBuilder::new().idle_timeout(MetricKindMask::ALL, Some(Duration::from_nanos(T))).verif_build_with_clock(clock);
+            let h = rec.handle();
+            match kind {
+                K::C => rec.register_counter(&Key::from_name("m"), &META).increment(1),
+                K::G => rec.register_gauge(&Key::from_name("m"), &META).set(1.5),
+                K::H => rec.register_histogram(&Key::from_name("m"), &META).record(1.0),
+            }
+            let first = seen_in(&h.render(), kind);
+            // the render drained the histogram's bucket: let the epoch collector free that block now, on this
+            // (non-model) thread, so that its destructor does not run at an epoch-dependent point inside the exploration
+            for _ in 0..64 {
+                crossbeam_epoch::pin().flush();
+            }
+            ES { rec, h, mock, seen: std::sync::Mutex::new(vec![first]) }
+        }),
+        bodies: vec![
+            body(move |s: &ES| match kind {
+                K::C => s.rec.register_counter(&Key::from_name("m"), &META).increment(5),
+                K::G => s.rec.register_gauge(&Key::from_name("m"), &META).increment(2.5),
+                K::H => s.rec.register_histogram(&Key::from_name("m"), &META).record(4.0),
+            }),
+            body(move |s: &ES| {
+                s.mock.increment(T / 2);
+                let v = seen_in(&s.h.render(), kind);
+                s.seen.lock().unwrap().push(v);
+            }),
+        ],
+        check: Box::new(move |s, _| {
+            s.mock.increment(T + 1);
+            let last = seen_in(&s.h.render(), kind);
+            let seen = s.seen.lock().unwrap().clone();
+            if seen[0] != Some(before) {
+                return fail("kept-metric-lost-its-value", format!("render #1 shows {:?}, expected {:?}", seen[0], before));
+            }
+            let second = seen[1];
+            if second != Some(before) && second != Some(after) {
+                let sig = if second.is_none() { "metric-dropped-before-idle-timeout" } else { "kept-metric-lost-its-value" };
+                return fail(sig, format!("render #2 (T/2 after render #1, racing with an update) shows {:?}; expected {:?} or {:?}", second, before, after));
+            }
+            match last {
+                Some(v) if v == after => Verdict::Ok(format!("{:?} kept", second)),
+                // a histogram that was dropped and whose racing sample arrives afterwards starts a fresh series
+                Some(v) => fail("kept-metric-lost-its-value", format!("final render shows {:?}, expected {:?} (render #2 showed {:?})", v, after, second)),
+                None if second == Some(after) => Verdict::Ok("reported in full, then dropped as idle".into()),
+                None => fail("metric-dropped-before-idle-timeout", format!("the metric was updated ({:?} -> {:?}) after render #2 had reported {:?}, yet the final render (T+1 later) dropped it as idle: the update was never reported", before, after, second)),
+            }
+        }),
+        termination_promised: true,
+    };
+    vsched::explore(&scn, &Cfg { max_bound: pb, horizon: 20000 }, ctx, res);
 }
 
 fn parts(ctx: &Ctx) -> Vec<PartSpec> {
@@ -385,6 +470,10 @@ fn parts(ctx: &Ctx) -> Vec<PartSpec> {
         }
         v.push(PartSpec::new(&format!("prometheus-mask{}", mi), json!({"prom": true, "mask": mi, "depth": if ctx.quick() { 6 } else { 8 }})).budget(if ctx.quick() { 50.0 } else { 2400.0 }));
     }
+    for (ki, kn) in ["counter", "gauge", "histogram"].iter().enumerate() {
+        let pb = if ctx.quick() { 2 } else { 4 };
+        v.push(PartSpec::new(&format!("e1-update-vs-observe-{}-pb{}", kn, pb), json!({"e1": pb, "kind": ki})).cpus("0").budget(if ctx.quick() { 50.0 } else { 1500.0 }));
+    }
     v
 }
 
@@ -392,7 +481,10 @@ fn run(ctx: &Ctx, spec: &PartSpec) -> PartResult {
     let mut res = PartResult::new(&spec.name, "");
     let mask = spec.arg["mask"].as_u64().unwrap_or(3) as usize;
     let depth = spec.arg["depth"].as_u64().unwrap_or(5) as usize;
-    if spec.arg["prom"].as_bool() == Some(true) {
+    if let Some(pb) = spec.arg["e1"].as_u64() {
+        let kind = [K::C, K::G, K::H][spec.arg["kind"].as_u64().unwrap_or(0) as usize];
+        e1_update_vs_observe(ctx, &mut res, pb as usize, kind);
+    } else if spec.arg["prom"].as_bool() == Some(true) {
         prom(ctx, &mut res, depth, mask);
     } else {
         direct(ctx, &mut res, depth, mask, spec.arg["timeout"].as_bool().unwrap_or(true), spec.arg["first"].as_u64().map(|x| x as usize));
@@ -404,7 +496,7 @@ fn main() {
     driver::main(CheckDef {
         prop: "C12",
         level: "model_checking",
-        rule: "direct: every sequence of the stated depth over 13 operations (update of 4 metrics incl. the same key under three kinds and a gauge update leaving the value unchanged; clock advance by 1, T-1, T, T+1 ticks; observe one metric; observe all) on the real Recency + Registry<Key, GenerationalAtomicStorage> under quanta's mock clock, for masks {NONE, COUNTER, GAUGE|HISTOGRAM, ALL} with the timeout and ALL without; via Prometheus: every sequence over {inc, set, record, advance 1/T/T+1, render} through verif_build_with_clock and the strict parser; reference per (kind,key): (generation, time of the last observation that saw a change); distinct = distinct reference states",
+        rule: "direct: every sequence of the stated depth over 13 operations (update of 4 metrics incl. the same key under three kinds and a gauge update leaving the value unchanged; clock advance by 1, T-1, T, T+1 ticks; observe one metric; observe all) on the real Recency + Registry<Key, GenerationalAtomicStorage> under quanta's mock clock, for masks {NONE, COUNTER, GAUGE|HISTOGRAM, ALL} with the timeout and ALL without; via Prometheus: every sequence over {inc, set, record, advance 1/T/T+1, render} through verif_build_with_clock and the strict parser; reference per (kind,key): (generation, time of the last observation that saw a change); E1: every SC interleaving (pb-bounded) of one update (counter increment / gauge increment / histogram record through the exporter's generational handles) with an observation (clock advance + render) between two sequential observations: the racing update is reported before the metric can be dropped as idle; distinct = distinct reference states",
         assumptions: &["time only advances through the mock clock", "the direct part observes a metric the way the exporters do: look the handle up, read its generation, ask should_store_*"],
         parts,
         run,
